@@ -52,17 +52,25 @@ def make_experiments(d, seed):
     return paths
 
 
-def write_yaml(path, exps):
-    """exps: list of (name, [files])"""
+def write_yaml(path, exps, unlabeled=()):
+    """exps: list of (name, [files]); experiments named in `unlabeled` get no labels entry (file names are used then)"""
     with open(path, "w") as f:
         f.write("[\n  data format: \"bam\",\n")
         items = []
         for name, files in exps:
+            if name in unlabeled:
+                items.append("  {\n    name: \"%s\",\n    long read files: [%s]\n  }" % (name, ", ".join('"%s"' % x for x in files)))
+                continue
             items.append("  {\n    name: \"%s\",\n    long read files: [%s],\n    labels: [%s]\n  }" %
                          (name, ", ".join('"%s"' % x for x in files),
-                          ", ".join('"rep%d"' % (i + 1) for i in range(len(files)))))
+                          ", ".join('"%s_r%d"' % (name.lower(), i + 1) for i in range(len(files)))))
         f.write(",\n".join(items))
         f.write("\n]\n")
+
+
+def unlabeled_of(mode):
+    """mode 'yaml-unl:B,C' = YAML input in which experiments B and C carry no labels"""
+    return tuple(mode.split("unl:", 1)[1].split(",")) if "unl:" in mode else ()
 
 
 def write_list(path, exps):
@@ -132,10 +140,12 @@ def run(chk, scratch):
                     (["A", "B"], "two", 1, "yaml"), (["B", "A", "C"], "two", 4, "yaml"), (["B", "C"], "two", 1, "list"),
                     (["A", "B"], "one", 1, "yaml-nomodels"), (["C", "A", "B"], "one", 1, "yaml"),
                     (["A", "B"], ("one", "skew"), 1, "yaml"), (["B", "A"], ("skew", "one"), 1, "yaml"), (["C", "A", "B"], ("one", "skew", "two"), 4, "list"),
-                    (["A", "B"], "skew", 4, "yaml")]
+                    (["A", "B"], "skew", 4, "yaml"), (["A", "B"], "two", 1, "yaml-unl:B"), (["B", "A", "C"], "two", 2, "yaml-unl:B,C"),
+                    (["C", "A"], ("one", "two"), 1, "yaml-unl:C")]
         else:
             seqs = [(["A", "B", "C"], "one", 1, "yaml"), (["B", "A"], "one", 4, "list"), (["A", "B"], "two", 1, "yaml"),
-                    (["A", "A2"], "one", 1, "yaml"), (["A", "B"], ("one", "skew"), 1, "yaml"), (["B", "A"], ("skew", "one"), 2, "list")]
+                    (["A", "A2"], "one", 1, "yaml"), (["A", "B"], ("one", "skew"), 1, "yaml"), (["B", "A"], ("skew", "one"), 2, "list"),
+                    (["A", "B"], "two", 2, "yaml-unl:B")]
         # stand-alone runs (per experiment x files x threads x mode)
         # a sequence whose experiments differ in the number of files runs (stand-alone and joint) with an explicit --read_group file_name,
         # which a mixed sequence would otherwise switch on implicitly for all experiments
@@ -156,7 +166,7 @@ def run(chk, scratch):
             extra = ["--no_model_construction"] if mode.endswith("nomodels") else []
             extra += ["--read_group", "file_name"] if rg else []
             if mode.startswith("yaml"):
-                write_yaml(inp, [(n, paths[n][nf])])
+                write_yaml(inp, [(n, paths[n][nf])], unlabeled=unlabeled_of(mode))
                 a = ["-o", out, "--yaml", inp]
             else:
                 write_list(inp, [(n, paths[n][nf])])
@@ -180,7 +190,7 @@ def run(chk, scratch):
             extra += rg_of(nf)
             exps = [(n, paths[n][nf_of(nf, pos)]) for pos, n in enumerate(names)]
             if mode.startswith("yaml"):
-                write_yaml(inp, exps)
+                write_yaml(inp, exps, unlabeled=unlabeled_of(mode))
                 a = ["-o", out, "--yaml", inp]
             else:
                 write_list(inp, exps)
